@@ -458,7 +458,7 @@ Fixpoint hav_run_lazy_reset (fs : list sfield) (nvis : nat) (p : hpred) (gs : li
    changed_col(true, sum(x + 1)), lag(max(d.x * 2)), latest(avg(x - 1.5)) ... GROUP BY CountingWindow(N):
    rsql/ast.go extractInlineAggregates turns the call into a hidden aggregation field __winagg_n__ of the same
    GroupAggregator and hands its per-window value to the analytic function.
-   AS FOUND (finding F60, not repaired): the hidden field is registered from the call's first FIELD only
+   AS FOUND (finding F60; repaired, see inline_field below): the hidden field was registered from the call's first FIELD only
    (fieldMap[hidden] = name); the argument expression that ParseAggregateTypeWithExpression returns is dropped,
    so the aggregate runs over the bare column.  nested = the column is the path d.x. *)
 Definition inline_shape_asis (nested : bool) (sh : shape) : shape :=
@@ -469,3 +469,6 @@ Definition inline_shape_asis (nested : bool) (sh : shape) : shape :=
 Definition inline_field_asis (f : agg) (star : bool) (nested : bool) (sh : shape) : sfield :=
   let sh' := inline_shape_asis nested sh in
   (f, if star then MStar else sql_mode sh', sh').
+(* the code (repaired): the hidden field carries the argument expression like a select-item aggregate *)
+Definition inline_field (f : agg) (star : bool) (sh : shape) : sfield :=
+  (f, if star then MStar else sql_mode sh, sh).
